@@ -273,7 +273,11 @@ Proof.
           destruct r as [[o|] rd3]; [apply IH4|].
           destruct rd3; [apply pres_raise|apply IH4]. }
         destruct (bl =? 1)%Z; [|apply pres_fuel].
-        apply pres_bind; [apply pres_dblocks_render|]. intros [[o|] rd3]; [apply IH4|apply pres_ret].
+        apply pres_bind; [apply pres_gets|]. intros saved.
+        apply pres_bind; [pres_mod HP|]. intros _.
+        apply pres_bind; [apply pres_dblocks_render|]. intros r.
+        apply pres_bind; [pres_mod HP|]. intros _.
+        destruct r as [[o|] rd3]; [apply IH4|apply pres_ret].
 Qed.
 
 Lemma pres_lists_render n rd : preserves P (lists_render fuel doc n rd).
